@@ -264,8 +264,7 @@ def check_trampoline(ck, fn):
         ck.ob("T-extend-some-item", key, a[0] == "agg" and a[2] == "Some" and a[4][0] == ("arg", 2), "Extend trampoline extends with %s" % mir.fmt(a))
 
 
-def run(tier):
-    ck = report.Check("C15", tier, level="other")
+def check_all(ck, tier):
     f = facts.cfg_cglue()
     ck.unit("cglue lib")
     fns = [x for x in f.fns("cglue-lib") if "/callback.rs" in x["span"] or "/iter.rs" in x["span"]]
@@ -497,6 +496,11 @@ def run(tier):
             ok = seen_arg and fo[0] == "fnconst" and fo[2][1] and fo[2][1][0] == "I" and nw["inputs"][0].endswith("mut I")
             ck.ob("I-new-pairs-at-same-type", nw["path"], ok, "CIterator::new pairs the iterator pointer with a trampoline instantiated at %s" % (str(fo[2][1]) if fo[0] == "fnconst" else mir.fmt(fo),),
                   sample={"iter": mir.fmt(io)[:100], "func": fo[1] if fo[0] == "fnconst" else None})
+
+
+def run(tier):
+    ck = report.Check("C15", tier, level="other")
+    check_all(ck, tier)
     return ck.finish(
         "loop-body path rules on every feeding loop (FeedCallback::feed_into_mut, Extend for OpaqueCallback), exactly-once delivery rules on every "
         "extern \"C\" trampoline, pairing rules on every Callback/OpaqueCallback/CIterator construction, and arm rules on the iterator trampoline and "
